@@ -491,8 +491,23 @@ func Run(w *Workload, dir string, limit time.Duration) *Observed {
 		go func() {
 			last := map[string]uint64{}
 			var seq uint64
+			// runaway guard: a stream of n bytes has at most n+1 lines. A scanner that stops advancing yields lines
+			// forever; the tap then stops forwarding (the reader goroutine stays parked on its send) so that the run
+			// ends with a finding instead of exhausting memory.
+			maxLines := len(w.Inputs) + 1
+			for _, in := range w.Inputs {
+				maxLines += len(in.Data)
+			}
+			total := 0
 			for ib := range b.BatchChan() {
 				seq++
+				total += len(ib.Batch)
+				if total > maxLines {
+					tapMu.Lock()
+					obs.ContinuityErr = fmt.Sprintf("runaway: batcher delivered more than %d lines for %d input bytes (source %s, batch start %d)", maxLines, maxLines-len(w.Inputs)-1, ib.Source, ib.BatchStart)
+					tapMu.Unlock()
+					break
+				}
 				tapMu.Lock()
 				obs.Tap = append(obs.Tap, TapEvent{Seq: seq, Source: ib.Source, Start: ib.BatchStart, Len: len(ib.Batch)})
 				want, seen := last[ib.Source]
@@ -708,6 +723,9 @@ func JudgeC02(w *Workload, dir string, truth []LineTruth, obs *Observed) []Findi
 	if obs.Panic != "" {
 		add("panic", "%s", obs.Panic)
 		return out
+	}
+	if strings.HasPrefix(obs.ContinuityErr, "runaway") {
+		add("bad-position", "%s", obs.ContinuityErr)
 	}
 	byPos := map[string]*LineTruth{}
 	for i := range w.Inputs {
